@@ -12,7 +12,7 @@ tvars == <<vars, k, i, div, reported>>
 TInit == Init /\ k \in 1..Len(Traces) /\ i = 1 /\ div = "" /\ reported = FALSE
 
 Act(e) == CASE e.op = "new" /\ e.k \in {"P", "S", "A", "T", "E"} -> New(e.k) /\ ev'.o = e.o
-            [] e.op = "new" /\ e.k = "W" -> NewW(e.t, e.sc) /\ ev'.o = e.o
+            [] e.op = "new" /\ e.k = "W" -> NewW(e.t, e.sc, e.rl) /\ ev'.o = e.o
             [] e.op = "new" /\ e.k = "V" -> NewV(e.t) /\ ev'.o = e.o
             [] e.op = "new" /\ e.k = "H" -> NewH(e.sc, e.addr) /\ ev'.o = e.o
             [] e.op = "alias"       -> Alias(e.o)
@@ -31,6 +31,7 @@ Act(e) == CASE e.op = "new" /\ e.k \in {"P", "S", "A", "T", "E"} -> New(e.k) /\ 
 SetOf(q) == {q[j] : j \in DOMAIN q}
 Diff(e) == CASE e.op = "collect" /\ SetOf(ev'.ran) # SetOf(e.ran) -> "ran"
              [] e.op # "collect" /\ ev'.ran # e.ran -> "ran"
+             [] ev'.nrel # e.nrel -> "nrel"
              [] ev'.exc # e.exc -> "exc"
              [] e.op \in {"probelock", "probealive", "probestruct", "fromhandle"} /\ ev'.obs # e.obs -> "obs"
              [] OTHER -> ""
